@@ -632,6 +632,21 @@ func runC08(c *core.Ctx) {
 			if isFlush && !(len(sends) == 1 && ir.Same(sends[0].ch, eg) && headRes != nil && ir.Same(sends[0].val, headRes) && nd == 1 && ne == 0) {
 				okFlush = false
 				c.Fail("flush", name, lastPos(p), "a flush iteration must send head(queue) once and deq once (sends=%d deq=%d enq=%d)", len(sends), nd, ne)
+			} else if isFlush {
+				// deliver, then remove: the value sent is the head as it stands before the queue is touched in this pass
+				sendAt, deqAt := -1, -1
+				for i := range p.Steps {
+					if &p.Steps[i] == sends[0].step {
+						sendAt = i
+					}
+					if isHelper(&p.Steps[i], qh.deq) && deqAt < 0 {
+						deqAt = i
+					}
+				}
+				if sendAt < 0 || deqAt < 0 || deqAt < sendAt {
+					okFlush = false
+					c.Fail("flush", name, lastPos(p), "a flush iteration removes the head before delivering it: the value sent is the next one (the head is lost, the last send reads an empty queue)")
+				}
 			}
 			if !isFlush && !(ne == 1 && nd == 0) {
 				okFlush = false
